@@ -160,3 +160,20 @@ package limiter
 //@   loop 5: invariant [inner_done] forall j int :: {rangekeys[j]} 0 <= j && j < idx ==> (instance in instcleared[r.limitStoreMap[rangekeys[j]]])
 //@   loop 6: invariant [keep] clearedOnlyDead && instcleared == atloop(6, instcleared)
 //@   loop 7: invariant [keep] clearedOnlyDead && instcleared == atloop(6, instcleared)
+
+// The upstream state condition keeps, for every schema that already had a status, that status (the summed allocation the
+// quota calculation subtracts from the limit, C07): changing a schema's limit must not reset what is on record as allocated.
+//@ const SCHEMAS = cluster.Spec.FlowControl.Schemas
+//@ const OLDST = old(upstreamCondition.Status.LimitItemStatuses)
+//@ const NEWST = result.Status.LimitItemStatuses
+
+//@ func updateUpstreamStateCondition props C07
+//@   requires [cluster] cluster != nil
+//@   modifies upstreamCondition.Spec, upstreamCondition.Status, fields("proxyv1alpha1.MaxRequestsInflightFlowControlSchema", "Max"), fields("proxyv1alpha1.TokenBucketFlowControlSchema", "QPS"), fields("proxyv1alpha1.TokenBucketFlowControlSchema", "Burst")
+//@   ensures [one_status_per_schema] result != nil && len(NEWST) == len(SCHEMAS) && forall i int :: {NEWST[i]} 0 <= i && i < len(SCHEMAS) ==> NEWST[i].Name == SCHEMAS[i].Name
+//@   ensures [allocated_carried] upstreamCondition != nil ==> forall i int :: {NEWST[i]} 0 <= i && i < len(SCHEMAS) && (exists j0 int :: {OLDST[j0]} 0 <= j0 && j0 < len(OLDST) && OLDST[j0].Name == SCHEMAS[i].Name) ==> exists j int :: {OLDST[j]} 0 <= j && j < len(OLDST) && OLDST[j].Name == SCHEMAS[i].Name && NEWST[i].RequestLevel == OLDST[j].RequestLevel && (OLDST[j].LimitItemDetail.MaxRequestsInflight != nil ==> NEWST[i].LimitItemDetail.MaxRequestsInflight == OLDST[j].LimitItemDetail.MaxRequestsInflight) && (OLDST[j].LimitItemDetail.TokenBucket != nil ==> NEWST[i].LimitItemDetail.TokenBucket == OLDST[j].LimitItemDetail.TokenBucket)
+//@   ensures [recorded_values_kept] (forall p *proxyv1alpha1.MaxRequestsInflightFlowControlSchema :: {p.Max} !fresh(p) ==> p.Max == old(p.Max)) && (forall q *proxyv1alpha1.TokenBucketFlowControlSchema :: {q.QPS} {q.Burst} !fresh(q) ==> q.QPS == old(q.QPS) && q.Burst == old(q.Burst))
+//@   loop 0: invariant [recorded_values_kept] (forall p *proxyv1alpha1.MaxRequestsInflightFlowControlSchema :: {p.Max} !fresh(p) ==> p.Max == old(p.Max)) && (forall q *proxyv1alpha1.TokenBucketFlowControlSchema :: {q.QPS} {q.Burst} !fresh(q) ==> q.QPS == old(q.QPS) && q.Burst == old(q.Burst))
+//@   loop 0: invariant [bounds] 0 <= idx && idx <= len(SCHEMAS) && len(newFlowControlStatus) == idx
+//@   loop 0: invariant [names] forall i int :: {newFlowControlStatus[i]} 0 <= i && i < idx ==> newFlowControlStatus[i].Name == SCHEMAS[i].Name
+//@   loop 0: invariant [carried] forall i int :: {newFlowControlStatus[i]} 0 <= i && i < idx && (SCHEMAS[i].Name in flowControlStatusToMap) ==> newFlowControlStatus[i].RequestLevel == flowControlStatusToMap[SCHEMAS[i].Name].RequestLevel && (flowControlStatusToMap[SCHEMAS[i].Name].LimitItemDetail.MaxRequestsInflight != nil ==> newFlowControlStatus[i].LimitItemDetail.MaxRequestsInflight == flowControlStatusToMap[SCHEMAS[i].Name].LimitItemDetail.MaxRequestsInflight) && (flowControlStatusToMap[SCHEMAS[i].Name].LimitItemDetail.TokenBucket != nil ==> newFlowControlStatus[i].LimitItemDetail.TokenBucket == flowControlStatusToMap[SCHEMAS[i].Name].LimitItemDetail.TokenBucket)
